@@ -187,7 +187,7 @@ func (p *ReceiverEstimatedMaximumBitrate) Unmarshal(buf []byte) (err error) {
 
 	// length is the number of 32-bit words, minus 1
 	length := binary.BigEndian.Uint16(buf[2:4])
-	size := int((length + 1) * 4)
+	size := (int(length) + 1) * 4
 
 	// There's not way this could be legit
 	if size < 20 {
